@@ -255,6 +255,22 @@ fn enumerate_mapping(run: u64, mapping: &[u8], st: &mut Stats, vs: &mut Vec<Viol
     st.run_done(cx.mdig);
 }
 
+/// A mapping whose sections are large (several KiB each): size-dependent write paths exist.
+fn gen_large(rng: &mut Rng) -> Vec<u8> {
+    let mut cfg = gen::GenCfg::swarm(rng, 10, 10);
+    if rng.chance(1, 2) {
+        cfg.max_classes = rng.range(2, 5);
+        cfg.pct_wide_class = 100; // 70..150 distinct methods per class
+    } else {
+        cfg.max_classes = rng.range(150, 260); // > 4096 bytes of class entries
+        cfg.max_members = 3;
+        cfg.pct_wide_class = 0;
+        cfg.class_pool = 16;
+    }
+    cfg.pct_long_name = cfg.pct_long_name.min(3);
+    gen::gen_mapping(rng, &cfg)
+}
+
 /// Seeded multi-fault exploration for one mapping.
 fn explore_mapping(run: u64, rng: &mut Rng, mapping: &[u8], plans: u64, st: &mut Stats, vs: &mut Vec<Violation>) {
     let canon = match canon_of(mapping) {
@@ -269,6 +285,12 @@ fn explore_mapping(run: u64, rng: &mut Rng, mapping: &[u8], plans: u64, st: &mut
     let mut nontrivial = 0;
     let calls_hint = run_write(mapping, &SinkPlan::default()).calls;
     st.inc("mappings");
+    if canon.len() < 200_000 {
+        for k in 1..=16usize {
+            let plan = SinkPlan { cap: Some(k), ..Default::default() };
+            check_one(&cx, &plan, st, vs, &mut nontrivial);
+        }
+    }
     for p in 0..plans {
         let plan = SinkPlan::random(rng, calls_hint, canon.len());
         let before = nontrivial;
@@ -433,11 +455,13 @@ pub fn main(env: &Env) -> i32 {
     if !env.thorough {
         let n_gen = env.scaled(160);
         let corpus: Vec<(String, Vec<u8>)> = gen::corpus(false).into_iter().filter(|(_, b)| b.len() < 3000).collect();
-        let n_total = n_gen + corpus.len() as u64 + 1;
+        let n_large = 32u64;
+        let n_total = n_gen + corpus.len() as u64 + 1 + n_large;
         rep.rule = format!(
             "per mapping ({} seeded-generated with 0..6 classes x 0..8 members, {} small corpus files, 1 hand-written padding case): fault-free control; every chunk cap 1..16; \
              for caps {{1,3,4,7,inf}} EVERY sink call index x {{short-once, Interrupted x1, Interrupted x3, hard sticky, hard transient, soft transient, Ok(0) once, Ok(0) forever}}; \
              disk-full at EVERY capacity 0..len for caps {{inf,1,5}}. Exhaustive for each mapping over that single-fault space. \
+             Plus 32 large-section mappings (wide classes of 70..150 methods, or 150..260 classes): every chunk cap 1..16 fault-free and 160 seeded multi-fault plans each. \
              distinct_nontrivial = executions (distinct by construction per distinct mapping) in which a fault fired or the cap truncated a call.",
             n_gen,
             corpus.len()
@@ -451,15 +475,20 @@ pub fn main(env: &Env) -> i32 {
             } else if i < n_gen + corpus.len() as u64 {
                 let (_, m) = &corpus[(i - n_gen) as usize];
                 enumerate_mapping(i, m, st, vs, false);
-            } else {
+            } else if i == n_gen + corpus.len() as u64 {
                 let m = b"a.B -> a:\n    1:3:void x():10:12 -> m\n    void y() -> n\n    void z() -> o\n";
                 enumerate_mapping(i, m, st, vs, true);
+            } else {
+                // large sections: every chunk cap fault-free + seeded multi-fault plans
+                let mut rng = Rng::new(run_seed(seed, "C15.large", i));
+                let m = gen_large(&mut rng);
+                explore_mapping(i, &mut rng, &m, 160, st, vs);
             }
         });
         st = r.0;
         vs = r.1;
         evaluations = st.get("executions");
-        distinct = st.keyed_sum();
+        distinct = st.keyed_sum() + st.distinct.len() as u64;
     } else {
         let n = env.scaled(1_000_000);
         let plans = 64u64;
